@@ -74,7 +74,10 @@ IngestVerdict(r) ==
       \* recipients the daemon must hand to the queue: all for smtp (the session offered only accepted ones) and qmqp; the acceptable ones for qmtp
       handed == IF r.proto = "qmtp" THEN Sel(r.xr, [i \in 1..n |-> r.rc[i] = "ok"]) ELSE r.xr
   IN
-  IF r.incomplete /\ committed THEN "IncompleteRequestQueued"          \* the client stopped (or sent a wrong byte) before its request was complete
+  IF r.trouble THEN (IF committed \/ anypos THEN "QueuedDespiteUnreadableControlFile"
+                     ELSE IF \E i \in 1..Len(r.acks) : Perm(r.acks[i]) THEN "ResourceTroubleRefusedPermanently"      \* temporary for resource trouble
+                     ELSE "")
+  ELSE IF r.incomplete /\ committed THEN "IncompleteRequestQueued"          \* the client stopped (or sent a wrong byte) before its request was complete
   ELSE IF anypos /\ ~committed THEN "AcknowledgedButNotQueued"
   ELSE IF anypos /\ r.got # r.body THEN "AcknowledgedMessageIsNotTheOneQueued"
   ELSE IF anypos /\ ~ReceivedOk(r.recv) THEN "ReceivedFieldMalformedOrUnsafe"
